@@ -1,14 +1,21 @@
 """C04 -- transitions stay inside the static-timing window and move rigidly with inputs."""
+from contracts import wave_c
+from pyvc.verify import verify
 from vk.common import PropertyResult
 from bounded import wave_parts
 
 
 def run(tier, seed):
-    res = PropertyResult('C04', 'exploration',
-                         'Bounded only in this build: static-timing window, rigid shift, power-of-two scaling and strict monotonicity (polarity-independent delays) are '
-                         'checked on real runs over a stated space of circuits, delay arrays and multi-transition stimuli on a dyadic grid. The provenance invariant of '
-                         '_wave_eval (stage 3) and the relational (two-run) shift/scale clauses are not discharged by pyvc (no product-program mode), so nothing is claimed as proved.')
+    res = PropertyResult('C04', 'other',
+                         'Tier P (unbounded, per operation, from the current source of _wave_eval): (Q8) one-op static-timing step -- if every finite operand entry plus any '
+                         'delay entry of its line lies in [LO, HI] then every finite output entry lies in [LO, HI] (the pulse filter only removes edges; every stored edge is a '
+                         'pending operand event); (Q9) with polarity-independent delays and strictly increasing operand waveforms the stored time stamps strictly increase '
+                         '(the forced-emission rule cannot fire). The netlist-level window is the induction over the op list (on paper / bounded). The relational clauses '
+                         '(rigid shift, power-of-two scaling) need a two-run product and are bounded only. Tier B (bounded): STA window, shift by +-2^k, scaling by 2^+-k (down to '
+                         '2^-24), monotonicity on real runs over the circuit space on a dyadic grid.')
+    res.report = verify(wave_c.targets(stage3=True), timeout_s=30 if tier == 'quick' else 120)
     res.bounded = [wave_parts.part_c04(tier, seed)]
-    res.assumptions = ['bounded: only the enumerated/seeded cases; dyadic grid so that float32 arithmetic is exact', 'static timing analysis oracle written from the property (min/max over the four polarity entries of each line)']
-    res.trusted_base = ['bounded/wave_parts.py, bounded/wave_drv.py']
+    res.assumptions = ['A-float (extended-real time stamps, exact finite arithmetic); the stage-1/2 invariants of _wave_eval are assumed in this configuration (they are proved in C03 '
+                       'under weaker requires)', 'shift / scale invariance: bounded only (relational)', 'induction from the per-op window to the netlist-level STA window: paper + bounded']
+    res.trusted_base = ['pyvc', 'z3 5.1.0, cvc5 1.0.3, z3 4.8.12 (portfolio for unknowns)', 'bounded/wave_parts.py']
     return res
